@@ -1202,8 +1202,8 @@ class XsdGroup(XsdComponent, MutableSequence[ModelParticleType],
             reason = _("wrong content type {!r}").format(type(obj.content))
             context.validation_error(validation, self, reason, elem)
 
-        if not self.mixed and text and text.strip() and self and \
-                (len(self) > 1 or not isinstance(self[0], XsdAnyElement)):
+        if not self.mixed and text and text.strip() and \
+                (len(self) != 1 or not isinstance(self[0], XsdAnyElement)):
             reason = _("character data between child elements not allowed")
             context.validation_error(validation, self, reason, elem)
 
